@@ -206,6 +206,12 @@ func (fr *Frame) callStatic(in ssa.Instruction, f *ssa.Function, args []Term) []
 		}
 	}
 	if ct := e.cf.Funcs[key]; ct != nil && !ct.Lemma && !fr.rgInlined(key) {
+		if len(fr.rgClauses("rely")) > 0 {
+			// in a rely/guarantee run a callee used through its (sequential) contract executes as ONE atomic step:
+			// that is an assumption unless the callee touches no shared state; it is listed with the evidence
+			// (use `inline f` to have its shared accesses interfered with individually)
+			fr.x.externs[fmt.Sprintf("ATOMIC CALL in the rely/guarantee run of %s: %s is used through its sequential contract, i.e. as one atomic step", fr.rgOwner().fn.Name(), key)] = true
+		}
 		return fr.callContract(in, f, ct, args)
 	}
 	// inline if affordable
